@@ -275,6 +275,22 @@ def F14_C13_nested_collection_in_key():
         return "asdict: wrong result %r" % (r,)
 
 
+def F15_C04_cache_slot_below_slotted_base():
+    @attr.s(slots=True, frozen=True, cache_hash=True)
+    class A:
+        x = attr.ib()
+
+    @attr.s(frozen=True, cache_hash=True)
+    class B(A):
+        y = attr.ib()
+
+    try:
+        if hash(B(1, 2)) != hash(B(1, 2)):
+            return "unstable hash"
+    except AttributeError:
+        return "frozen dict cache_hash class below a slotted cache_hash class: hash() raises AttributeError"
+
+
 ALL = {k: v for k, v in list(globals().items()) if k[0] in "FK" and k[1].isdigit()}
 
 if __name__ == "__main__":
